@@ -14,22 +14,81 @@ SITES = {
     'cm': ('crates/anemo', 'src/network/connection_manager.rs', 'cm.rs', 'network::connection_manager::__verif_cm'),
     'wire': ('crates/anemo', 'src/network/wire.rs', 'wire.rs', 'network::wire::__verif_wire'),
     'root': ('crates/anemo', 'src/lib.rs', 'root.rs', '__verif_root'),
+    'backoff': ('crates/anemo', 'src/network/connection_manager.rs', 'backoff.rs', 'network::connection_manager::__verif_backoff'),
 }
+# what a site's harnesses are about: when the default file no longer declares it, the module is attached to the one file of the crate that does
+SITE_SUBJECT = {
+    'cm': r'fn\s+\w+\s*\(\s*\w+\s*:\s*&PeerId\s*,\s*\w+\s*:\s*&PeerId\s*,\s*\w+\s*:\s*ConnectionOrigin\s*,\s*\w+\s*:\s*ConnectionOrigin\s*,?\s*\)\s*->\s*bool',
+    'backoff': r'\bstruct\s+DialBackoffState\b',
+}
+_site_now = {}
+
+
+def resolve_site(scratch, s):
+    """(source file relative to the crate dir, module path of the harness module) for site s in this tree"""
+    import glob
+    cdir, src, hfile, mod = SITES[s]
+    subj = SITE_SUBJECT.get(s)
+    try:
+        import fnroles
+        tren = {pinned: cur for cur, pinned in fnroles.type_renames(REPO).items()}
+    except Exception:
+        tren = {}
+    if subj and 'DialBackoffState' in subj and 'DialBackoffState' in tren:
+        subj = subj.replace('DialBackoffState', tren['DialBackoffState'])
+    base = os.path.join(scratch, cdir)
+    if not subj or re.search(subj, re.sub(r'//[^\n]*', '', open(os.path.join(base, src), errors='replace').read())):
+        return src, mod
+    hits = []
+    for f in glob.glob(os.path.join(base, 'src', '**', '*.rs'), recursive=True):
+        if os.path.basename(f).startswith('__verif_'):
+            continue
+        if re.search(subj, re.sub(r'//[^\n]*', '', open(f, errors='replace').read())):
+            hits.append(os.path.relpath(f, base))
+    if len(hits) != 1:
+        return src, mod
+    rel = hits[0][len('src/'):-3].split(os.sep)
+    if rel[-1] in ('mod', 'lib'):
+        rel = rel[:-1]
+    return hits[0], '::'.join(rel + [f'__verif_{s}'])
 
 
 # private items the harnesses name, with the signature by which each is recognised after a rename (pinned name first)
 ROLE_FNS = {
-    'cm': [('simultaneous_dial_tie_breaking', r'fn\s+(\w+)\s*\(\s*\w+\s*:\s*&PeerId\s*,\s*\w+\s*:\s*&PeerId\s*,\s*\w+\s*:\s*ConnectionOrigin\s*,\s*\w+\s*:\s*ConnectionOrigin\s*,?\s*\)\s*->\s*bool'),
-           ('update', r'fn\s+(\w+)\s*\(\s*&mut self\s*,\s*\w+\s*:\s*(?:std::time::)?Instant\s*,\s*\w+\s*:\s*(?:std::time::)?Duration\s*,\s*\w+\s*:\s*(?:std::time::)?Duration\s*,?\s*\)'),
+    'cm': [('simultaneous_dial_tie_breaking', r'fn\s+(\w+)\s*\(\s*\w+\s*:\s*&PeerId\s*,\s*\w+\s*:\s*&PeerId\s*,\s*\w+\s*:\s*ConnectionOrigin\s*,\s*\w+\s*:\s*ConnectionOrigin\s*,?\s*\)\s*->\s*bool')],
+    'backoff': [('update', r'fn\s+(\w+)\s*\(\s*&mut self\s*,\s*\w+\s*:\s*(?:std::time::)?Instant\s*,\s*\w+\s*:\s*(?:std::time::)?Duration\s*,\s*\w+\s*:\s*(?:std::time::)?Duration\s*,?\s*\)'),
            ('new', r'fn\s+(\w+)\s*\(\s*\w+\s*:\s*(?:std::time::)?Instant\s*,\s*\w+\s*:\s*(?:std::time::)?Duration\s*,\s*\w+\s*:\s*(?:std::time::)?Duration\s*,?\s*\)\s*->\s*Self')],
     'wire': [('read_version_frame', r'async fn\s+(\w+)\s*<\s*\w+\s*:\s*AsyncRead \+ Unpin\s*>\s*\(\s*\w+\s*:\s*&mut \w+\s*,?\s*\)\s*->\s*Result<Version>'),
              ('write_version_frame', r'async fn\s+(\w+)\s*<\s*\w+\s*:\s*AsyncWrite \+ Unpin\s*>\s*\(\s*\w+\s*:\s*&mut \w+\s*,\s*\w+\s*:\s*Version\s*,?\s*\)\s*->\s*Result<\(\)>'),
              ('network_message_frame_codec', r'fn\s+(\w+)\s*\(\s*\w+\s*:\s*&Config\s*\)\s*->\s*LengthDelimitedCodec')],
 }
-ROLE_FIELDS = {'cm': [('DialBackoffState', 'backoff', r'Instant$'), ('DialBackoffState', 'attempts', r'^usize$')]}
+ROLE_FIELDS = {'backoff': [('DialBackoffState', 'backoff', r'Instant$'), ('DialBackoffState', 'attempts', r'^usize$')]}
 
 
-def adapt_harness(site, text, src):
+def _codec_builder_call(crate_src):
+    """Rust expression building the crate's frame codec from `cfg: Config` / `max: Option<usize>` when the helper is no longer
+    `network_message_frame_codec(&Config)` in wire.rs: the one crate function returning a LengthDelimitedCodec from a `&Config` or an
+    `Option<usize>` (moved and/or renamed), addressed by its module path"""
+    import glob
+    hits = []
+    for f in glob.glob(os.path.join(crate_src, '**', '*.rs'), recursive=True):
+        if os.path.basename(f).startswith('__verif_'):
+            continue
+        plain = re.sub(r'//[^\n]*', '', open(f, errors='replace').read())
+        for m in re.finditer(r'^([ \t]*)(pub(?:\([^)]*\))?\s+)?fn\s+(\w+)\s*\(\s*\w+\s*:\s*(Option<usize>|&\s*(?:crate::)?Config)\s*,?\s*\)\s*->\s*(?:[\w:]+::)?LengthDelimitedCodec', plain, re.M):
+            if m.group(1):          # indented: a method / nested item, not a free function of the module
+                continue
+            rel = os.path.relpath(f, crate_src)[:-3].split(os.sep)
+            if rel[-1] in ('mod', 'lib'):
+                rel = rel[:-1]
+            hits.append(('crate::' + '::'.join(rel + [m.group(3)]), m.group(4)))
+    if len(hits) != 1:
+        return None
+    path, ty = hits[0]
+    return f'{path}(max)' if ty.startswith('Option') else f'{path}(&cfg)'
+
+
+def adapt_harness(site, text, src, crate_src=None):
     """rename, in the harness text, private functions/fields of the pinned commit to what the current source calls them
     (recognised by signature / field type).  Only exact identifier occurrences are replaced; nothing else changes."""
     plain = re.sub(r'//[^\n]*', '', src)
@@ -42,6 +101,17 @@ def adapt_harness(site, text, src):
                 notes.append(f'type {pinned} -> {cur}')
     except Exception:
         pass
+    if site == 'wire' and crate_src and not re.search(ROLE_FNS['wire'][2][1], plain):
+        expr = _codec_builder_call(crate_src)
+        if expr and 'network_message_frame_codec(&cfg)' in text:
+            text = text.replace('network_message_frame_codec(&cfg)', expr)
+            notes.append(f'network_message_frame_codec(&cfg) -> {expr}')
+    if site == 'cm':
+        m = re.search(r'^([ \t]*)(?:pub(?:\([^)]*\))?\s+)?' + ROLE_FNS['cm'][0][1], plain, re.M)
+        if m and not m.group(1):
+            # the tie break is a free function of the module now, not an associated function of the peer table
+            text = re.sub(r'\b\w+::simultaneous_dial_tie_breaking\(', m.group(2) + '(', text)
+            notes.append(f'associated fn -> free fn {m.group(2)}')
     for pinned, sig in ROLE_FNS.get(site, []):
         if re.search(r'\bfn\s+' + re.escape(pinned) + r'\b', plain):
             continue
@@ -72,10 +142,14 @@ def overlay(scratch, sites):
     with open(os.path.join(crate, 'src/lib.rs'), 'a') as f:
         f.write('\n#[cfg(kani)] #[path = "__verif_prelude.rs"] pub(crate) mod __verif_prelude;\n')
     for s in sites:
-        cdir, src, hfile, _mod = SITES[s]
+        cdir, _src, hfile, _mod = SITES[s]
+        src, modpath = resolve_site(scratch, s)
+        _site_now[s] = modpath
+        if src != _src:
+            log(f'[kani] site {s}: its subject moved, harness module attached to {src}')
         srcpath = os.path.join(scratch, cdir, src)
         d = os.path.dirname(srcpath)
-        text, notes = adapt_harness(s, open(os.path.join(VERIF, 'kani', hfile)).read(), open(srcpath, errors='replace').read())
+        text, notes = adapt_harness(s, open(os.path.join(VERIF, 'kani', hfile)).read(), open(srcpath, errors='replace').read(), os.path.join(scratch, cdir, 'src'))
         with open(os.path.join(d, f'__verif_{s}.rs'), 'w') as f:
             f.write(text)
         if notes:
@@ -149,6 +223,9 @@ def build_and_run(prop, sites, jobs, report, replay_fn=None, parallel=8):
         crate = os.path.join(scratch, 'crates/anemo')
         os.makedirs(KANI_TARGET, exist_ok=True)
         env = {'RUSTFLAGS': '', 'CARGO_TARGET_DIR': ''}
+
+        for job in jobs:
+            job.full = _site_now.get(job.site, SITES[job.site][3]) + '::' + job.harness
 
         def one(job):
             cmd = ['cargo', 'kani', '--target-dir', KANI_TARGET, '--harness', job.full, '--exact']
